@@ -16,7 +16,7 @@ ROLES = ["FeatureLine", "RuleLine", "BackgroundLine", "ScenarioLine", "ExamplesL
 ROLE_CATS = {"FeatureLine": ["feature"], "RuleLine": ["rule"], "BackgroundLine": ["background"], "ScenarioLine": ["scenario", "scenarioOutline"],
              "ExamplesLine": ["examples"]}
 TITLES = ["", " name here ", "x", " issue #", " see ticket ##  ", " #", " C# and F#", " trailing colon: ", " `@tag` in title",
-          ":smile: works", ":", "::x", " : spaced", "\ttab before", " #", "# x", " - x", "* y", " | a |", "\u00e9", ":\u00a0", " a:b", "\uff1a x", " x \\", " <a>", " \"\"\""]
+          ":smile: works", ":", "::x", " : spaced", "\ttab before", " #", "# x", " - x", "* y", " | a |", "\u00e9", ":\u00a0", " a:b", "\uff1a x", " x \\", " <a>", " \"\"\"", " eating \\<count\\> cucumbers", " C:\\>dir", " \\< \\\\> \\&", " the `@wip` and `@slow` markers", " `@a``@b`"]
 
 
 def tok(line):
@@ -56,6 +56,13 @@ def check_title(case, stats):
     should = variant == "header" and 1 <= depth <= 6
     if got != should:
         raise Violation(case, "%s line %r in dialect %s: match_%s returned %r, expected %r" % (cat, line, d, role, got, should))
+    # the tag matcher looks at every line: tags quoted in a heading's title are tags of that line
+    tl = tok(line)
+    tg = MD(d).match_TagLine(tl)
+    body_ = line.lstrip(" ")
+    wt = [(x, (len(line) - len(body_)) + off + 2) for x, off in quoted_tags(body_.rstrip("\n"))]
+    if tg != bool(wt) or (tg and [(i_["text"], i_["column"]) for i_ in tl.matched_items] != wt):
+        raise Violation(case, "line %r: match_TagLine returned %r with %r, the backtick-quoted '@' words are %r" % (line, tg, [(i_["text"], i_["column"]) for i_ in tl.matched_items] if tg else [], wt))
     if should:
         want_kw = role_matches(d, role, rest)
         want = (want_kw, TITLES[ti].strip(), ind + depth + 2, role)
